@@ -37,9 +37,9 @@ RULE = ('dataset = 1..4 feature stores (kind in keypoints/descriptors/global_fea
         'one kapture directory; per store a write history with overwrites, 0-row arrays, nested / spaced / unicode / long '
         'image names, files for images absent from records_camera; packed twin = same history as tar members, packed by '
         'tarfile.add of the really written files (or TarInfo) with mtimes recent / 0 / past / future / mixed and shuffled '
-        'mode, uid, pax records (plain or '
+        'mode, uid, pax records, some files being hard links / symlinks of others (LNKTYPE / SYMTYPE members) (plain or '
         '"./" spelling, directory members, GNU or PAX format, shuffled when no duplicates), optional stale loose files, '
-        'optional API appends (mostly superseding packed names), handlers passed or not, listing through kapture_from_dir or *_from_dir(None); reads = own '
+        'optional API appends (mostly superseding packed names), handlers passed or not, listing through kapture_from_dir (0, 1 or n recorded images) or *_from_dir with image set None / empty / one / subset; reads = own '
         'dtype/dsize, wrong dsize, wrong dtype, missing image, a few files with a trailing partial element. '
         'append = 1..8 add_array_to_tar calls with repeated names and odd spellings on no / empty / populated archive, '
         'through TarHandler or get_all_tar_handlers(mode a)+image_*_to_file, 1 or 2 sessions, reader after every append. '
@@ -56,6 +56,9 @@ TRUSTED = ['CPython tarfile (member iteration order, append mode positions at th
 ASSUMPTIONS = ['image and type names contain no backslash, comma, "#" or leading / trailing blank (backslash names make '
                'path_secure non-idempotent on POSIX; the others do not survive records_camera.txt)',
                'feature files carry their extension in the exact case the writers use; a folder is not named like a feature file',
+               'links inside a feature folder are hard links / symlinks to regular files of the same folder, made after the '
+               'files were written; nothing is written THROUGH a link afterwards (that changes its siblings in a folder but '
+               'not in an archive); dangling links, symlink chains and sparse members are not modelled',
                'a reader opens the archive after the append call has returned; a writer killed inside add_array_to_tar, '
                'power loss / OS crash (no fsync is issued) and concurrent writers are outside the quantifier',
                'files whose size is not a multiple of the element size are not arrays: np.fromfile truncates, np.frombuffer '
@@ -240,7 +243,8 @@ def _gen_store(rng, images, unknown, kind, ftype):
         w['raw'] = True
         malformed = True
     st = {'fkind': kind, 'ftype': ftype, 'dtype': dtype, 'dsize': dsize, 'writes': writes, 'tar': None,
-          'stale': [], 'appends': [], 'reads': [], 'malformed': malformed}
+          'stale': [], 'appends': [], 'reads': [], 'malformed': malformed, 'links': []}
+    some_image = (images + unknown)[0]
     if rng.random() < 0.85:
         style = rng.choice(['plain', 'plain', 'dot', 'odd'])
         idx = list(range(len(writes)))
@@ -259,26 +263,49 @@ def _gen_store(rng, images, unknown, kind, ftype):
         #      'info' = members made from TarInfo objects
         st['tar'] = {'members': members, 'style': style, 'dirs': style == 'dot' or rng.random() < 0.3,
                      'format': rng.choice(['gnu', 'pax']), 'how': rng.choice(['add', 'add', 'info'])}
-        if rng.random() < 0.2 and writes:
+        # a de-duplicated folder: some feature files are hard links (or symlinks) of others; tarfile.add then stores
+        # LNKTYPE / SYMTYPE members.  Link entries are members [-(j+1), spelling, header] for link j.
+        linked = []
+        if keys and not malformed and rng.random() < 0.3:
+            st['tar']['how'] = 'add'
+            for j in range(rng.choice([1, 1, 2, 3])):
+                target = rng.choice(keys)
+                fresh = [k for k in images + unknown if k not in keys and k not in [l[0] for l in st['links']]]
+                name = rng.choice(fresh) if fresh and rng.random() < 0.7 else 'dedup/copy %d of %s' % (j, rng.choice(BASE_NAMES))
+                new = [target[0], name] if kind == 'Matches' else name
+                if new in keys or new in [l[0] for l in st['links']] or new == target:
+                    continue
+                st['links'].append([new, target, rng.choice(['hard', 'hard', 'sym'])])
+                linked += [new, target]
+                entry = [-len(st['links']), None, _hdr(rng, profile)]
+                if keep_dups or rng.random() < 0.5:
+                    members.append(entry)
+                else:
+                    members.insert(rng.randrange(len(members) + 1), entry)     # may precede its target: roles swap
+        if rng.random() < 0.2 and writes and not linked:
             w = rng.choice(writes)
             st['stale'].append({'key': w['key'], 'hex': _data(rng, dtype, dsize).hex()})
             if rng.random() < 0.5:
-                st['stale'].append({'key': (['zz/only-loose.jpg', images[0]] if kind == 'Matches' else 'zz/only-loose.jpg'),
+                st['stale'].append({'key': (['zz/only-loose.jpg', some_image] if kind == 'Matches' else 'zz/only-loose.jpg'),
                                     'hex': _data(rng, dtype, dsize).hex()})
         if rng.random() < 0.45:
             for _ in range(rng.randint(1, 3)):
                 if keys and rng.random() < 0.65:
                     k = rng.choice(keys)                       # supersede a packed member
                 elif kind == 'Matches':
-                    k = [rng.choice(images), rng.choice(images + unknown)]
+                    k = [rng.choice(images + unknown), rng.choice(images + unknown)]
                 else:
                     k = rng.choice(images + unknown)
+                if k in linked:
+                    continue      # writing through a hard link changes its siblings in a folder, not in an archive: out of scope
                 st['appends'].append({'key': k, 'hex': _data(rng, dtype, dsize).hex()})
     allkeys = []
     for w in writes + st['appends'] + st['stale']:
         if w['key'] not in allkeys:
             allkeys.append(w['key'])
     rng.shuffle(allkeys)
+    for l in st['links']:
+        st['reads'].append([l[0], dtype, dsize])
     for k in allkeys[:5]:
         st['reads'].append([k, dtype, dsize])
     if kind != 'Matches':
@@ -288,13 +315,13 @@ def _gen_store(rng, images, unknown, kind, ftype):
             st['reads'].append([allkeys[-1], other, dsize])
         st['reads'].append(['not/there.jpg', dtype, dsize])
     else:
-        st['reads'].append([['not/there.jpg', images[0]], dtype, dsize])
+        st['reads'].append([['not/there.jpg', some_image], dtype, dsize])
     return st
 
 
 def _gen_dataset(rng):
-    images = _images(rng, rng.choice([1, 2, 3, 4, 6]))
-    unknown = [n for n in _images(rng, rng.choice([0, 0, 1, 2])) if n not in images]
+    images = _images(rng, rng.choice([0, 1, 1, 2, 3, 4, 6]))       # 0 = records_camera.txt with no record at all
+    unknown = [n for n in _images(rng, rng.choice([0, 0, 1, 2]) if images else rng.choice([1, 2, 3])) if n not in images]
     stores, used = [], set()
     for _ in range(rng.choice([1, 1, 2, 3, 4])):
         kind, ftype = rng.choice(KIND_NAMES), rng.choice(TYPE_NAMES)
@@ -306,8 +333,23 @@ def _gen_dataset(rng):
         if st['tar']:
             for m in st['tar']['members']:
                 m[1] = _pick_spelling(rng, st['tar']['style'])
+    # how the stores are listed: through kapture_from_dir (image set = records_camera), or through the per-store loaders
+    # with an explicit image set: None (everything), set() (nothing), {one image}, a subset with strangers
+    use_known = rng.random() < 0.6
+    direct = None
+    if not use_known:
+        c = rng.random()
+        pool = images + unknown
+        if c < 0.3:
+            direct = None
+        elif c < 0.55:
+            direct = []
+        elif c < 0.8:
+            direct = [rng.choice(pool)]
+        else:
+            direct = [x for x in pool if rng.random() < 0.6] + ['never/seen.jpg']
     return {'kind': 'dataset', 'images': images, 'stores': stores,
-            'handlers': rng.random() < 0.85, 'use_known': rng.random() < 0.7}
+            'handlers': rng.random() < 0.85, 'use_known': use_known, 'direct_known': direct}
 
 
 def _gen_append(rng, mode):
@@ -319,7 +361,11 @@ def _gen_append(rng, mode):
     dtype = 'float64' if kind == 'Matches' else rng.choice(list(DTYPES))
     dsize = 3 if kind == 'Matches' else rng.choice([1, 2, 4])
 
+    link_keys = []
+
     def key():
+        if link_keys and rng.random() < 0.25:
+            return rng.choice(link_keys)           # an append that supersedes a link member
         if kind == 'Matches':
             a = rng.choice(images)
             return [a, rng.choice(images + ['other/x.png'])]
@@ -331,6 +377,12 @@ def _gen_append(rng, mode):
             for _ in range(rng.randint(1, 4)):
                 members.append([key(), _data(rng, dtype, dsize).hex(), rng.choice(['plain', 'plain', 'dot']),
                                 _hdr(rng, rng.choice(['files', 'files', 'mixed', 'zero']))])
+            if rng.random() < 0.3:
+                # a member that is a hard link (or symlink) to an earlier regular member, as tar stores de-duplicated files
+                to = rng.randrange(len(members))
+                lk = [members[to][0][0], 'lnk/dup.png'] if kind == 'Matches' else 'lnk/dup of ' + rng.choice(BASE_NAMES)
+                members.append([lk, {'link': rng.choice(['hard', 'hard', 'sym']), 'to': to}, 'plain', _hdr(rng, 'files')])
+                link_keys.append(lk)
         base = {'members': members, 'dirs': rng.random() < 0.3, 'format': rng.choice(['gnu', 'pax'])}
     ops = []
     # every kill sweep holds one array of at least io.DEFAULT_BUFFER_SIZE bytes (not a multiple of 16 KiB): since every k
@@ -380,9 +432,11 @@ def _apply_hdr(ti, h):
 
 
 def _write_tar(path, members, dirs, fmt, real=None):
-    """members: [(name as spelled, header fields, bytes)] in archive order; dirs: also add directory members first.
-    real: None (members made from TarInfo objects) or a function i -> path of a real file that holds member i's bytes
-    right now; the file is given the member's mtime and added with tarfile.add, the way `tar -cf` packs a folder."""
+    """members: [(name as spelled, header fields, payload)] in archive order, payload = bytes, or ('h', linkname) /
+    ('s', linkname) for a hard / symbolic link member made by hand; dirs: also add directory members first.
+    real: None (members made from TarInfo objects) or a function i -> path of a real file (or link) that stands for
+    member i right now; it is given the member's mtime and added with tarfile.add, the way `tar -cf` packs a folder
+    (so files sharing an inode become LNKTYPE members, symlinks SYMTYPE members)."""
     os.makedirs(os.path.dirname(path), exist_ok=True)
     with tarfile.open(path, 'w', format=_tar_format(fmt)) as t:
         if dirs:
@@ -402,25 +456,67 @@ def _write_tar(path, members, dirs, fmt, real=None):
             if real is not None:
                 src = real(i)
                 try:
-                    os.utime(src, (h['mtime'], h['mtime']))
-                except (OSError, OverflowError):
+                    os.utime(src, (h['mtime'], h['mtime']), follow_symlinks=False)
+                except (OSError, OverflowError, NotImplementedError):
                     pass
                 t.add(src, arcname=n, recursive=False, filter=lambda ti, h=h: _apply_hdr(ti, h))
-            else:
+            elif isinstance(b, (bytes, bytearray)):
                 ti = tarfile.TarInfo(n)
                 ti.size = len(b)
                 t.addfile(_apply_hdr(ti, h), io.BytesIO(b))
+            else:
+                ti = tarfile.TarInfo(n)
+                ti.type = tarfile.LNKTYPE if b[0] == 'h' else tarfile.SYMTYPE
+                ti.linkname = b[1]
+                t.addfile(_apply_hdr(ti, h))
 
 
 def _phys(path):
-    """Physical log of an archive read with plain tarfile: [(member name, header fields, bytes)] of the regular files;
-    None if there is no archive."""
+    """Physical log of an archive read with plain tarfile: [(member name, header fields, payload)] of the regular files
+    and links, payload = ('b', bytes) | ('h', linkname) | ('s', archive path the symlink points at); None if no archive."""
     if not os.path.isfile(path) or os.path.getsize(path) == 0:
         return None
+    out = []
     with tarfile.open(path, 'r') as t:
-        return [(m.name, {'mtime': int(m.mtime), 'mode': m.mode, 'uid': m.uid,
-                          'pax': {str(k): str(v) for k, v in m.pax_headers.items()}}, t.extractfile(m).read())
-                for m in t.getmembers() if m.isfile()]
+        for m in t.getmembers():
+            if m.isfile():
+                pay = ('b', t.extractfile(m).read())
+            elif m.islnk():
+                pay = ('h', m.linkname)
+            elif m.issym():
+                pay = ('s', os.path.normpath('/'.join(filter(None, (os.path.dirname(m.name), m.linkname)))))
+            else:
+                continue
+            out.append((m.name, {'mtime': int(m.mtime), 'mode': m.mode, 'uid': m.uid,
+                                 'pax': {str(k): str(v) for k, v in m.pax_headers.items()}}, pay))
+    return out
+
+
+def _jpay(pay):
+    return {pay[0]: pay[1].hex() if pay[0] == 'b' else pay[1]}
+
+
+def _resolve(members):
+    """The harness's own reading of an archive as a folder: {path: bytes}; a hard link has the bytes of the last earlier
+    member under its target path, a symlink those of the last member of the whole archive under its target path.
+    members: [(name, payload)] with payload ('b', bytes|hex) | ('h', target) | ('s', target path)."""
+    out, solid = {}, {}
+    for n, pay in members:
+        k = _same_file(n)
+        if pay[0] == 'b':
+            out[k] = solid[k] = pay[1]
+        elif pay[0] == 'h':
+            if _same_file(pay[1]) in solid:
+                out[k] = solid[k] = solid[_same_file(pay[1])]
+        else:
+            out[k] = ('->', _same_file(pay[1]))          # still a symlink unless a later member takes the name
+    for k, v in list(out.items()):
+        if isinstance(v, tuple):
+            if v[1] in solid:
+                out[k] = solid[v[1]]
+            else:
+                del out[k]
+    return out
 
 
 def _arr(b, dtype, dsize):
@@ -474,9 +570,26 @@ def _members_of(st, K):
     """[(spelled member name, header fields, bytes)] of the archive the harness builds for a store."""
     out = []
     for i, sp, h in st['tar']['members']:
-        w = st['writes'][i]
-        out.append((_spell(_fname(K, st['fkind'], w['key']), sp), h, bytes.fromhex(w['hex'])))
+        if i < 0:
+            out.append((_spell(_fname(K, st['fkind'], st['links'][-i - 1][0]), sp), h, None))     # made by tarfile.add
+        else:
+            w = st['writes'][i]
+            out.append((_spell(_fname(K, st['fkind'], w['key']), sp), h, bytes.fromhex(w['hex'])))
     return out
+
+
+def _make_link(root, st, K, link):
+    """The link as a user's de-duplication tool makes it in a feature folder: os.link / relative os.symlink."""
+    new, target, how = link
+    k = K[st['fkind']]
+    src, dst = k['fullpath'](st['ftype'], root, target, None), k['fullpath'](st['ftype'], root, new, None)
+    os.makedirs(os.path.dirname(dst), exist_ok=True)
+    if not os.path.lexists(dst):
+        if how == 'hard':
+            os.link(src, dst)
+        else:
+            os.symlink(os.path.relpath(src, os.path.dirname(dst)), dst)
+    return dst
 
 
 def _observe(root, case, K, handlers):
@@ -499,7 +612,8 @@ def _observe(root, case, K, handlers):
                     part = getattr(kd, k['attr'])
                     feats = part[st['ftype']]
                 else:
-                    feats = k['from_dir'](st['ftype'], root, None, th)
+                    dk = case.get('direct_known')
+                    feats = k['from_dir'](st['ftype'], root, None if dk is None else set(dk), th)
                 if st['fkind'] == 'Matches':
                     o['listing'] = sorted([a, b] for a, b in feats)
                 else:
@@ -543,26 +657,40 @@ def _run_dataset(case, ctx):
         for st in case['stores']:
             for w in st['writes']:
                 _write_loose(D, st, K, w['key'], bytes.fromhex(w['hex']), w['raw'])
+            for l in st['links']:
+                _make_link(D, st, K, l)
             for a in st['appends']:
                 _write_loose(D, st, K, a['key'], bytes.fromhex(a['hex']), False)
         # packed twin
+        phys = []
         _make_root(P, case['images'], case['stores'], K)
         for st in case['stores']:
             sub = os.path.join(P, SPEC[st['fkind']][0], st['ftype'])
             if st['tar'] is None:
                 for w in st['writes']:
                     _write_loose(P, st, K, w['key'], bytes.fromhex(w['hex']), w['raw'])
+                phys.append(None)
                 continue
             real, written = None, set()
             if st['tar']['how'] == 'add':
                 def real(i, st=st, written=written):
-                    w = st['writes'][st['tar']['members'][i][0]]
-                    f = _write_loose(P, st, K, w['key'], bytes.fromhex(w['hex']), w['raw'])
+                    wi = st['tar']['members'][i][0]
+                    if wi < 0:
+                        link = st['links'][-wi - 1]
+                        tgt = K[st['fkind']]['fullpath'](st['ftype'], P, link[1], None)
+                        if not os.path.lexists(tgt):          # the link is packed before its target: write the target now
+                            w = [x for x in st['writes'] if x['key'] == link[1]][-1]
+                            written.add(_write_loose(P, st, K, w['key'], bytes.fromhex(w['hex']), w['raw']))
+                        f = _make_link(P, st, K, link)
+                    else:
+                        w = st['writes'][wi]
+                        f = _write_loose(P, st, K, w['key'], bytes.fromhex(w['hex']), w['raw'])
                     written.add(f)
                     return f
             _write_tar(os.path.join(sub, SPEC[st['fkind']][1]), _members_of(st, K), st['tar']['dirs'], st['tar']['format'], real)
             for f in written:
                 os.unlink(f)
+            phys.append([[n, h, _jpay(pay)] for n, h, pay in _phys(os.path.join(sub, SPEC[st['fkind']][1]))])
             for s in st['stale']:
                 _write_loose(P, st, K, s['key'], bytes.fromhex(s['hex']), False)
         append_error = None
@@ -586,16 +714,18 @@ def _run_dataset(case, ctx):
         for st in case['stores']:
             names = [_fname(K, st['fkind'], r[0]) for r in st['reads']]
             names += [_fname(K, st['fkind'], w['key']) for w in st['writes'] + st['appends'] + st['stale']]
+            names += [_fname(K, st['fkind'], l[0]) for l in st['links']]
             if st['tar']:
-                names += [n for n, _, _ in _members_of(st, K)]
+                for n, _, pay in phys[case['stores'].index(st)]:
+                    names += [n] + [v for k, v in pay.items() if k != 'b']
             if st['fkind'] != 'Matches':
-                names += [i + K[st['fkind']]['ext'] for i in case['images']]
+                names += [i + K[st['fkind']]['ext'] for i in case['images'] + (case.get('direct_known') or [])]
             for n in names:
                 m = _path_secure(n)
                 while m != n and n not in norm:
                     norm[n] = m
                     n, m = m, _path_secure(m)
-        return {'packed': obs_p, 'dir': obs_d, 'append_error': append_error, 'norm': sorted(norm.items())}
+        return {'packed': obs_p, 'dir': obs_d, 'append_error': append_error, 'norm': sorted(norm.items()), 'phys': phys}
     finally:
         shutil.rmtree(base, ignore_errors=True)
 
@@ -645,7 +775,18 @@ def _op_names(case, K):
 
 
 def _base_members(case, K):
-    return [(_spell(_fname(K, case['fkind'], key), sp), h, bytes.fromhex(hx)) for key, hx, sp, h in case['base']['members']]
+    out = []
+    for key, hx, sp, h in case['base']['members']:
+        n = _spell(_fname(K, case['fkind'], key), sp)
+        if isinstance(hx, dict):             # {'link': 'hard'|'sym', 'to': index of an earlier member}
+            tgt = out[hx['to']][0]
+            if hx['link'] == 'hard':
+                out.append((n, h, ('h', tgt)))
+            else:
+                out.append((n, h, ('s', os.path.relpath(_same_file(tgt), os.path.dirname(_same_file(n)) or '.'))))
+        else:
+            out.append((n, h, bytes.fromhex(hx)))
+    return out
 
 
 def _reader_view(case, K, path, root):
@@ -667,7 +808,7 @@ def _reader_view(case, K, path, root):
     try:
         items = []
         for n, m in h.content.items():
-            if m.isfile():
+            if m.isfile() or m.islnk() or m.issym():
                 with contextlib.redirect_stdout(io.StringIO()):
                     items.append([n, h.get_array_from_tar(n, np.uint8, 1).tobytes().hex()])
         return {'open': True, 'items': items}
@@ -707,7 +848,7 @@ def _run_inproc(case, ctx):
         sessions, pos = [], 0
         for si, n in enumerate(case['sessions']):
             base = _phys(path)
-            s = {'base': None if base is None else [[a, h, b.hex()] for a, h, b in base], 'ops': [], 'obs': [], 'windex': [],
+            s = {'base': None if base is None else [[a, h, _jpay(pay)] for a, h, pay in base], 'ops': [], 'obs': [], 'windex': [],
                  'error': None}
             th = h = None
             try:
@@ -716,7 +857,7 @@ def _run_inproc(case, ctx):
                     h = getattr(th, k['attr'])[case['ftype']]
                 else:
                     h = TarHandler(path, 'a')
-                s['windex'].append([0, [x for x, m in h.content.items() if m.isfile()]])
+                s['windex'].append([0, [x for x, m in h.content.items() if m.isfile() or m.islnk() or m.issym()]])
                 s['obs'].append([0, 'alive', _reader_view(case, K, path, root)])
                 for j in range(pos, pos + n):
                     key, hx, _ = case['ops'][j]
@@ -726,7 +867,7 @@ def _run_inproc(case, ctx):
                     else:
                         h.add_array_to_tar(names[j], arr)
                     s['ops'].append([names[j], hx])
-                    s['windex'].append([j - pos + 1, [x for x, m in h.content.items() if m.isfile()]])
+                    s['windex'].append([j - pos + 1, [x for x, m in h.content.items() if m.isfile() or m.islnk() or m.issym()]])
                     s['obs'].append([j - pos + 1, 'alive', _reader_view(case, K, path, root)])
                 if si < len(case['sessions']) - 1 or case['close_last']:
                     (th or h).close()
@@ -750,7 +891,7 @@ def _run_inproc(case, ctx):
 def _norm_table(sessions):
     norm = {}
     for s in sessions:
-        for n in [m[0] for m in (s['base'] or [])] + [o[0] for o in s['ops']]:
+        for n in [x for m in (s['base'] or []) for x in [m[0]] + [v for k, v in m[2].items() if k != 'b']] + [o[0] for o in s['ops']]:
             m = _path_secure(n)
             while m != n and n not in norm:
                 norm[n] = m
@@ -777,7 +918,7 @@ def _run_kill(case, ctx):
             path, root = _prepare_archive(case, K, os.path.join(where, f'k{kpt}'))
             if kpt == 0:
                 base = _phys(path)
-                session['base'] = None if base is None else [[a, h, b.hex()] for a, h, b in base]
+                session['base'] = None if base is None else [[a, h, _jpay(pay)] for a, h, pay in base]
             p = subprocess.Popen([kv.PY, '-B', script], stdin=subprocess.PIPE, stdout=subprocess.PIPE,
                                  stderr=subprocess.DEVNULL, env=kv.impl_env(), text=True)
             p.stdin.write(json.dumps({'api': case['api'], 'path': path, 'root': root, 'fkind': case['fkind'],
@@ -830,9 +971,21 @@ def run_impl(case, ctx):
 def _truth(case, st, K):
     """Latest bytes per feature file of a store (writes then appends), by the harness's own notion of path identity."""
     d = {}
-    for w in st['writes'] + st['appends']:
+    for w in st['writes']:
+        d[_same_file(_fname(K, st['fkind'], w['key']))] = bytes.fromhex(w['hex'])
+    for new, target, _ in st.get('links', []):          # a link reads as the file it was made from
+        d[_same_file(_fname(K, st['fkind'], new))] = d[_same_file(_fname(K, st['fkind'], target))]
+    for w in st['appends']:
         d[_same_file(_fname(K, st['fkind'], w['key']))] = bytes.fromhex(w['hex'])
     return d
+
+
+def _known(case):
+    """The image set the listing is restricted to: records_camera, an explicit set, or None = no restriction."""
+    if case['use_known']:
+        return set(case['images'])
+    dk = case.get('direct_known')
+    return None if dk is None else set(dk)
 
 
 def _oracle_dataset(case, obs):
@@ -850,16 +1003,15 @@ def _oracle_dataset(case, obs):
         if op['error'] or od['error']:
             return f'listing the {kind} of a store failed: ' + str(op['error'] or od['error']).split(':')[0]
         truth = _truth(case, st, K)
-        known = set(case['images'])
+        known = _known(case)
         exp = []
         seen = set()
-        for w in st['writes'] + st['appends']:
-            key = w['key']
+        for key in [w['key'] for w in st['writes']] + [l[0] for l in st.get('links', [])] + [w['key'] for w in st['appends']]:
             tk = json.dumps(key)
             if tk in seen:
                 continue
             seen.add(tk)
-            if case['use_known'] and not (set(key) <= known if kind == 'Matches' else key in known):
+            if known is not None and not (set(key) <= known if kind == 'Matches' else key in known):
                 continue
             exp.append(key)
         exp = sorted(exp)
@@ -888,13 +1040,9 @@ def _oracle_append(case, obs):
         if s['error']:
             return ('writer process failed or died before completing its appends' if case['mode'] == 'kill'
                     else 'appending through the API raised ' + s['error'].split(':')[0])
-        start = {}
-        for n, _, hx in (s['base'] or []):
-            start[_same_file(n)] = hx
+        base = [(n, list(pay.items())[0]) for n, _, pay in (s['base'] or [])]
         for k, ending, seen in s['obs']:
-            exp = dict(start)
-            for n, hx in s['ops'][:k]:
-                exp[_same_file(n)] = hx
+            exp = _resolve(base + [(n, ('b', hx)) for n, hx in s['ops'][:k]])
             if s['base'] is None and k == 0:
                 continue                     # nothing was promised before the first append of a new archive
             if not seen['open']:
@@ -907,9 +1055,7 @@ def _oracle_append(case, obs):
             if got != exp:
                 return f'reader does not see exactly the first k completed appends, latest version per name (writer {ending})'
         for k, keys in s['windex']:
-            exp = set(start)
-            for n, _ in s['ops'][:k]:
-                exp.add(_same_file(n))
+            exp = set(_resolve(base + [(n, ('b', hx)) for n, hx in s['ops'][:k]]))
             if set(keys) != exp:
                 return "the appending handler's own index differs from the archive content"
     return None
@@ -936,8 +1082,15 @@ def _chdr(h):
         kv.clist(kv.cpair(kv.cstr(k), kv.cstr(v)) for k, v in sorted(h['pax'].items())))
 
 
+def _cpay(pay):
+    """pay: {'b': hex} | {'h': linkname} | {'s': target path}"""
+    if 'b' in pay:
+        return '(PBytes %s)' % _cb(pay['b'])
+    return '(PHard %s)' % kv.cstr(pay['h']) if 'h' in pay else '(PSym %s)' % kv.cstr(pay['s'])
+
+
 def _cmembers(items):
-    return kv.clist(kv.cpair(kv.cstr(n), _chdr(h), _cb(b)) for n, h, b in items)
+    return kv.clist(kv.cpair(kv.cstr(n), _chdr(h), _cpay(pay)) for n, h, pay in items)
 
 
 def _crd(r):
@@ -946,19 +1099,22 @@ def _crd(r):
     return {'missing': 'RMissing', 'bad': 'RBad'}.get(r[0], 'ROther')
 
 
-def _encode_store(case, st, o, K, norm, packed):
+def _encode_store(case, st, o, K, norm, packed, phys=None):
     kind = st['fkind']
     files, tar, appends = {}, None, []
     if packed and st['tar'] is not None:
-        tar = _members_of(st, K)
+        tar = phys                       # what plain tarfile finds in the archive the harness built
         for s in st['stale']:
             files[_same_file(_fname(K, kind, s['key']))] = bytes.fromhex(s['hex'])
         appends = [(_fname(K, kind, a['key']), bytes.fromhex(a['hex'])) for a in st['appends']]
-    else:
-        for w in st['writes'] + (st['appends'] if st['tar'] is not None else []):
+    elif st['tar'] is None:
+        for w in st['writes']:
             files[_same_file(_fname(K, kind, w['key']))] = bytes.fromhex(w['hex'])
+    else:
+        files = _truth(case, st, K)      # the directory twin: a hard / symbolic link is just another path with content
     handlers = case['handlers'] if packed else True
-    known = kv.copt(kv.clist(kv.cstr(i) for i in case['images'])) if case['use_known'] else 'None'
+    kn = _known(case)
+    known = 'None' if kn is None else kv.copt(kv.clist(kv.cstr(i) for i in (case['images'] if case['use_known'] else case['direct_known'])))
     if o['error'] or o['listing'] is None:
         images, pairs = kv.clist([kv.cstr('<listing failed>')]), kv.clist([kv.cpair(kv.cstr('<listing failed>'), kv.cstr(''))])
     elif kind == 'Matches':
@@ -988,7 +1144,7 @@ def encode(case, obs):
                 return '[CStore {| sc_norm := []; sc_kind := "load failed"%string; sc_files := []; sc_tar := None; sc_appends := []; ' \
                        'sc_handlers := true; sc_known := None; sc_reads := []; so_images := ["x"%string]; so_pairs := []; so_reads := [] |}]'
         for st, op, od in zip(case['stores'], obs['packed']['stores'], obs['dir']['stores']):
-            out.append(_encode_store(case, st, op, K, norm, True))
+            out.append(_encode_store(case, st, op, K, norm, True, obs['phys'][case['stores'].index(st)]))
             if st['tar'] is not None:
                 out.append(_encode_store(case, st, od, K, norm, False))
         return kv.clist(out)
@@ -1014,13 +1170,19 @@ def nontrivial(case, obs):
 def classify(case, obs):
     if case['kind'] == 'dataset':
         tars = sum(1 for st in case['stores'] if st['tar'])
-        dups = any(st['tar'] and len(st['tar']['members']) > len({json.dumps(st['writes'][m[0]]['key']) for m in st['tar']['members']})
-                   for st in case['stores'])
+        dups = any(st['tar'] and len([m for m in st['tar']['members'] if m[0] >= 0]) >
+                   len({json.dumps(st['writes'][m[0]]['key']) for m in st['tar']['members'] if m[0] >= 0}) for st in case['stores'])
+        if case['use_known']:
+            how = 'records=%s' % (len(case['images']) if len(case['images']) < 2 else 'n')
+        else:
+            dk = case.get('direct_known')
+            how = 'set=%s' % ('None' if dk is None else 'empty' if not dk else 'one' if len(dk) == 1 else 'some')
         flags = [f for f, on in (('overwrites', dups), ('appends', any(st['appends'] for st in case['stores'])),
                                  ('stale', any(st['stale'] for st in case['stores'])),
+                                 ('links', any(st.get('links') for st in case['stores'])),
                                  ('malformed', any(st['malformed'] for st in case['stores']))) if on]
         return 'dataset/stores=%d/tars=%d/%s/%s%s' % (
-            len(case['stores']), tars, 'handlers' if case['handlers'] else 'nohandlers', 'known' if case['use_known'] else 'all',
+            len(case['stores']), tars, 'handlers' if case['handlers'] else 'nohandlers', how,
             ''.join('/' + f for f in flags))
     names = [json.dumps(o[0]) for o in case['ops']]
     return 'append/%s/%s/base=%s%s%s' % (
@@ -1031,9 +1193,11 @@ def classify(case, obs):
 def describe(case, obs):
     if case['kind'] == 'dataset':
         return {'kind': 'dataset', 'images': case['images'], 'handlers': case['handlers'], 'use_known': case['use_known'],
+                'direct_known': case.get('direct_known'),
                 'stores': [{'kind': st['fkind'], 'type': st['ftype'], 'dtype': st['dtype'], 'dsize': st['dsize'],
                             'writes': [w['key'] for w in st['writes']], 'tar': st['tar'] and {k: v for k, v in st['tar'].items() if k != 'members'},
-                            'appends': [a['key'] for a in st['appends']], 'stale': [s['key'] for s in st['stale']]}
+                            'appends': [a['key'] for a in st['appends']], 'stale': [s['key'] for s in st['stale']],
+                            'links': st.get('links', [])}
                            for st in case['stores']],
                 'observed_packed': [{'listing': o['listing'], 'reads': [r[:2] for r in o['reads']]}
                                     for o in obs.get('packed', {}).get('stores', [])][:2]}
@@ -1048,6 +1212,14 @@ def _drop_write(st, i):
     del st['writes'][i]
     if st['tar']:
         st['tar']['members'] = [[m[0] - (m[0] > i)] + m[1:] for m in st['tar']['members'] if m[0] != i]
+    return st
+
+
+def _drop_link(st, j):
+    st = json.loads(json.dumps(st))
+    del st['links'][j]
+    st['tar']['members'] = [[m[0] + (m[0] < -(j + 1))] + m[1:] for m in st['tar']['members'] if m[0] != -(j + 1)]
+    st['reads'] = [r for r in st['reads'] if r[0] in [w['key'] for w in st['writes'] + st['appends'] + st['stale']] + [l[0] for l in st['links']]]
     return st
 
 
@@ -1066,7 +1238,14 @@ def shrink(case):
                     c = dict(case)
                     c['stores'] = case['stores'][:si] + [s2] + case['stores'][si + 1:]
                     yield c
+            for j in range(len(st.get('links', []))):
+                c = dict(case)
+                c['stores'] = case['stores'][:si] + [_drop_link(st, j)] + case['stores'][si + 1:]
+                yield c
             for i in range(len(st['writes'])):
+                key = st['writes'][i]['key']
+                if any(l[1] == key for l in st.get('links', [])) and sum(1 for w in st['writes'] if w['key'] == key) == 1:
+                    continue          # the only version of a link's target
                 c = dict(case)
                 c['stores'] = case['stores'][:si] + [_drop_write(st, i)] + case['stores'][si + 1:]
                 yield c
@@ -1086,7 +1265,7 @@ def shrink(case):
                 c['ops'] = case['ops'][:i] + case['ops'][i + 1:]
                 c['sessions'] = [len(c['ops'])]
                 yield c
-        if case['base'] and case['base']['members']:
+        if case['base'] and case['base']['members'] and not any(isinstance(m[1], dict) for m in case['base']['members']):
             for i in range(len(case['base']['members'])):
                 c = dict(case)
                 c['base'] = dict(case['base'])
